@@ -51,8 +51,7 @@ func ruleC18_7(c *Ctx, r *Rep) {
 			// (c) operation
 			args := call.Call.Args // recv, op, params
 			if len(args) == 3 {
-				src := sources(args[1])
-				okOp := src["call:splitMethodName"] && src["field:FullMethod"] || src["field:method"]
+				okOp := isMethodPart(c, args[1], 0)
 				r.Check("C18.7", key+":operation", call.Pos(), okOp, "operation = this call's method", "the operation handed to the fault check is not derived from the intercepted call's method name")
 				// (d) parameters
 				pv := resolve(args[2])
@@ -130,6 +129,78 @@ func ruleC18_7(c *Ctx, r *Rep) {
 		}
 	}
 	r.Floor("C18.7", n, 4)
+}
+
+// isMethodPart: v is (built from) the METHOD part of the intercepted call's full method name: the result of
+// splitMethodName(info.FullMethod) that holds the text after the separator, or the stream wrapper's field that was
+// initialised with it.
+func isMethodPart(c *Ctx, v ssa.Value, depth int) bool {
+	if depth > 3 {
+		return false
+	}
+	v = resolve(v)
+	switch x := v.(type) {
+	case *ssa.BinOp:
+		if x.Op == token.ADD {
+			// method + ":RecvMsg"
+			if _, isK := x.Y.(*ssa.Const); isK {
+				return isMethodPart(c, x.X, depth+1)
+			}
+		}
+	case *ssa.Extract:
+		call, ok := x.Tuple.(*ssa.Call)
+		if !ok || call.Call.StaticCallee() == nil || call.Call.StaticCallee().Name() != "splitMethodName" || !sources(call.Call.Args[0])["field:FullMethod"] {
+			return false
+		}
+		return x.Index == methodResultIndex(call.Call.StaticCallee())
+	case *ssa.UnOp:
+		if fa, ok := x.X.(*ssa.FieldAddr); ok && x.Op == token.MUL && fieldName(fa.X.Type(), fa.Field) == "method" {
+			// every store to that field in the package is a method part
+			n := 0
+			for _, f := range c.Funcs {
+				if c.PkgOf(f) != "grpc" {
+					continue
+				}
+				for _, b := range f.Blocks {
+					for _, in := range b.Instrs {
+						st, isSt := in.(*ssa.Store)
+						if !isSt {
+							continue
+						}
+						sfa, isFA := st.Addr.(*ssa.FieldAddr)
+						if !isFA || fieldName(sfa.X.Type(), sfa.Field) != "method" || !types.Identical(sfa.X.Type(), fa.X.Type()) {
+							continue
+						}
+						n++
+						if !isMethodPart(c, st.Val, depth+1) {
+							return false
+						}
+					}
+				}
+			}
+			return n > 0
+		}
+	}
+	return false
+}
+
+// methodResultIndex: which result of splitMethodName is the text AFTER the separator (s[i+1:], or the second
+// result of strings.Cut).
+func methodResultIndex(fn *ssa.Function) int {
+	for _, ret := range returnsOf(fn) {
+		for i := range ret.Results {
+			v := resolve(retResult(ret, i))
+			if sl, ok := v.(*ssa.Slice); ok && sl.Low != nil && sl.High == nil {
+				return i
+			}
+			if ex, ok := v.(*ssa.Extract); ok && ex.Index == 1 {
+				if call, ok := ex.Tuple.(*ssa.Call); ok && call.Call.StaticCallee() != nil && call.Call.StaticCallee().Name() == "Cut" {
+					return i
+				}
+			}
+		}
+	}
+	return -1
 }
 
 func blockReaches(from, to *ssa.BasicBlock) bool {
